@@ -331,15 +331,22 @@ def r05c(ctx):
                   'a keyed collection can be probed with the unkeyed hash (or vice versa)')
     elif ctx.check(len(gets) == 1 and bool(ne_edges), 'R05c', fn, 'probe', '-', 'one chunk_lookup probe, selected per collection key'):
         q = a.arg(gets[0], 1)
-        # the probe key is a join of two truncate_hash values; find both defining calls
-        ths = a.calls('mdb_shard::utils::truncate_hash')
-        keyed = [t for t in ths if flow.mentions(a.arg(t, 0), lambda z: z[0] == 'call' and sg(z[1]).endswith('DataHash::hmac') and flow.mentions(z, lambda y: y[0] == 'field' and y[2] == 'hmac_key'))]
-        plain = [t for t in ths if t not in keyed]
-        ok = len(keyed) == 1 and len(plain) == 1 and a.cfg.must_pass(keyed[0], via_edges=ne_edges) and a.cfg.must_pass(plain[0], via_edges=eq_edges)
-        ctx.check(ok, 'R05c', fn, 'keyed probe', a.loc(keyed[0]) if keyed else '-', 'on the non-default-key edge the probe uses truncate_hash(hmac(query[0], collection key)); the plain hash only on the default-key edge',
+        # the hashes that can reach the probe: walk through join points, down to the argument of truncate_hash
+        is_q0 = lambda z: is_query_elem(z, 'query_hashes', lambda i: i == ('const', 0, 'usize'))
+        hashes = []     # (block where the choice is made, hash expression that gets truncated)
+        for (sb, ssi, se) in a.flow.sources(q, (gets[0], None)):
+            if se[0] == 'call' and sg(se[1]).endswith('truncate_hash') and len(se[2]) == 1:
+                for (hb, hsi, he) in a.flow.sources(se[2][0], (se[3], None)):
+                    hashes.append((hb if hb is not None else se[3], he))
+            else:
+                hashes.append((sb, se))
+        keyed = [(b_, e_) for (b_, e_) in hashes if e_[0] == 'call' and sg(e_[1]).endswith('DataHash::hmac') and flow.mentions(e_, lambda y: y[0] == 'field' and y[2] == 'hmac_key')]
+        plain = [(b_, e_) for (b_, e_) in hashes if (b_, e_) not in keyed]
+        ok = (len(keyed) >= 1 and len(plain) >= 1 and all(b_ is not None and a.cfg.must_pass(b_, via_edges=ne_edges) for (b_, _) in keyed)
+              and all(b_ is not None and bool(eq_edges) and a.cfg.must_pass(b_, via_edges=eq_edges) for (b_, _) in plain))
+        ctx.check(ok, 'R05c', fn, 'keyed probe', a.loc(keyed[0][0]) if keyed and keyed[0][0] is not None else '-', 'on the non-default-key edge the probe uses truncate_hash(hmac(query[0], collection key)); the plain hash only on the default-key edge',
                   'a keyed collection can be probed with the unkeyed hash (or vice versa)')
-        both = keyed + plain
-        ctx.check(all(flow.mentions(a.arg(t, 0), lambda z: is_query_elem(z, 'query_hashes', lambda i: i == ('const', 0, 'usize'))) for t in both), 'R05c', fn, 'probe.hash', '-', 'both forms derive from query_hashes[0]')
+        ctx.check(bool(hashes) and all(is_q0(e_[2][0]) if (b_, e_) in keyed else is_q0(e_) for (b_, e_) in hashes), 'R05c', fn, 'probe.hash', '-', 'both forms derive from query_hashes[0]')
     dq = [d for d in a.calls('mdb_shard::shard_file_handle::MDBShardFile::chunk_hash_dedup_query_direct')]
     for d in dq:
         ok = flow.mentions(a.arg(d, 1), lambda z: (z[0] == 'upvar' and z[1] == 'query_hashes') or (z[0] == 'param' and z[2] == 'query_hashes')) and gets and a.rooted_at(a.arg(d, 2), gets[0]) and a.rooted_at(a.arg(d, 3), gets[0])
